@@ -29,6 +29,24 @@ pub fn vocab_of(lang: &str) -> &'static Vocab {
                 // src/lang/<code>/*.rs that this tree's library treats as ordinary words
                 for w in crate::SRC_DICT.iter().find(|(c, _)| c == l).map(|(_, ws)| *ws).unwrap_or(&[]) {
                     let lo = w.to_lowercase();
+                    // a literal on which the tree's interpreter panics is admitted as it is: the checks (which contain
+                    // panics and report them) must meet it, the vocabulary set-up must not die on it
+                    let probe_ok = std::panic::catch_unwind(|| {
+                        let mut b = text2num::digit_string::DigitString::new();
+                        let _ = text2num::LangInterpreter::apply(lg, &lo, &mut b);
+                        let _ = text2num::LangInterpreter::apply_decimal(lg, &lo, &mut b);
+                        let _ = text2num::text2digits(&lo, lg);
+                        let _ = text2num::LangInterpreter::is_linking(lg, &lo);
+                        let _ = text2num::LangInterpreter::is_decimal_sep(lg, &lo);
+                    })
+                    .is_ok();
+                    if !probe_ok {
+                        let leaked: &'static str = Box::leak(lo.clone().into_boxed_str());
+                        v.fillers.push(leaked);
+                        v.common.push(leaked);
+                        v.srcdict.push(leaked);
+                        continue;
+                    }
                     // unknown to the interpreter in every builder state we can put it in (a bare scale word like
                     // `mila` is rejected on an empty builder only)
                     let unknown = ["", "1", "2", "7", "20", "100", "1000", "2000000"].iter().all(|pre| {
@@ -68,7 +86,7 @@ pub fn vocab_of(lang: &str) -> &'static Vocab {
                 };
                 for ph in crate::SRC_PHRASES.iter().find(|(c, _)| c == l).map(|(_, ws)| *ws).unwrap_or(&[]) {
                     let parts: Vec<&str> = ph.split(' ').collect();
-                    if parts.iter().all(|w| not_number(w)) && text2num::text2digits(ph, lg).is_err() {
+                    if std::panic::catch_unwind(std::panic::AssertUnwindSafe(|| parts.iter().all(|w| not_number(w)) && text2num::text2digits(ph, lg).is_err())).unwrap_or(true) {
                         v.phrases.push(parts.iter().map(|w| -> &'static str { Box::leak(w.to_string().into_boxed_str()) }).collect());
                     }
                 }
